@@ -109,14 +109,15 @@ type rec struct {
 }
 
 type world struct {
-	c      *hk.Ctx
-	mu     simsync.Mutex
-	seq    int
-	recs   []*rec
-	calls  []*tcall             // every TryTransition call made by the clients (requests and API-rule GO_ERRORs)
-	hooks  map[string]*hookSpec // by role path
-	group  map[string]int       // trigger expr -> number of members started in the current phase
-	groupN map[string]int
+	rnFaultSeqs []int // event sequence numbers at which a run number allocation was made to fail
+	c           *hk.Ctx
+	mu          simsync.Mutex
+	seq         int
+	recs        []*rec
+	calls       []*tcall             // every TryTransition call made by the clients (requests and API-rule GO_ERRORs)
+	hooks       map[string]*hookSpec // by role path
+	group       map[string]int       // trigger expr -> number of members started in the current phase
+	groupN      map[string]int
 }
 
 // tcall: one call of TryTransition as its caller saw it
@@ -437,10 +438,12 @@ func body(c *hk.Ctx) {
 			switch sc.RNFault {
 			case "consul-down":
 				c.Count("fault.consul_down_at_start")
+				w.rnFaultSeqs = append(w.rnFaultSeqs, w.seq)
 				return simconsul.Fault500
 			case "cas-refused":
 				if method == "PUT" {
 					c.Count("fault.cas_refused_at_start")
+					w.rnFaultSeqs = append(w.rnFaultSeqs, w.seq)
 					store.Bump(key, 1) // another core advanced the counter in between
 				}
 			}
@@ -1070,6 +1073,20 @@ func checkRuns(c *hk.Ctx, viol func(p, oracle, sig, format string, a ...any), w 
 	}
 	var cur *run
 	var lastOfRun *bracket // the STOP_ACTIVITY / GO_ERROR transition that ends the current run
+	endVars := []string{"run_end_time_ms", "run_end_completion_time_ms"}
+	var prevEnd map[string]string       // end timestamps the hooks saw in the last finished run
+	var prevEndBr *bracket              // the transition that ended it
+	noNumber := func(b *bracket) bool { // a START_ACTIVITY whose run number allocation was made to fail
+		if b.state == "RUNNING" {
+			return false
+		}
+		for _, q := range w.rnFaultSeqs {
+			if q >= b.start && q <= b.end {
+				return true
+			}
+		}
+		return false
+	}
 	runs := 0
 	for _, es := range starts {
 		if es.start == 0 {
@@ -1081,6 +1098,12 @@ func checkRuns(c *hk.Ctx, viol func(p, oracle, sig, format string, a ...any), w 
 			continue
 		}
 		if lastOfRun != nil && es.br != lastOfRun {
+			if cur != nil {
+				prevEnd, prevEndBr = map[string]string{}, lastOfRun
+				for _, k := range endVars {
+					prevEnd[k] = cur.seen[k]
+				}
+			}
 			cur, lastOfRun = nil, nil
 		}
 		v := es.vars
@@ -1124,6 +1147,25 @@ func checkRuns(c *hk.Ctx, viol func(p, oracle, sig, format string, a ...any), w 
 				if v[k] != "" {
 					cur.seen[k] = v[k]
 				}
+			}
+		}
+		// between two runs nothing writes the end timestamps: once a run is over they keep their
+		// values until the next START_ACTIVITY that gets a run number (one that failed to get a
+		// number began no run, and the GO_ERROR after it ends none)
+		if cur == nil && prevEnd != nil && es.awaitedIn != nil {
+			noNewRun := true
+			for _, b := range brs {
+				if b.event == "START_ACTIVITY" && b.start > prevEndBr.end && b.start <= es.br.start && !noNumber(b) {
+					noNewRun = false
+				}
+			}
+			if noNewRun {
+				for _, k := range endVars {
+					if prevEnd[k] != "" && v[k] != prevEnd[k] {
+						viol("C10", "timestamp-once", "outside-run:"+k, "%s of the finished run was %s and is %q now, seen by hook %s at %s (%s) although no run began in between (a START_ACTIVITY that got no run number does not begin one): set more than once", k, prevEnd[k], v[k], es.h.Name, es.moment, es.br.event)
+					}
+				}
+				c.Count("probe.end_timestamps_checked_between_runs")
 			}
 		}
 		cancelledStart := false
